@@ -47,18 +47,76 @@ def _arg_field(call: ast.Call) -> Optional[str]:
     return None
 
 
-def _numeric(r: Resolver, f: Optional[FuncInfo], m, e: ast.AST) -> Optional[float]:
+def _numeric(r: Resolver, f: Optional[FuncInfo], m, e: ast.AST, depth: int = 0) -> Optional[float]:
+    """value of a constant expression (literals, named module constants, + - * / of those)"""
+    if depth > 6:
+        return None
     if isinstance(e, ast.Constant) and isinstance(e.value, (int, float)) and not isinstance(e.value, bool):
         return float(e.value)
     if isinstance(e, ast.UnaryOp) and isinstance(e.op, (ast.USub, ast.UAdd)):
-        v = _numeric(r, f, m, e.operand)
+        v = _numeric(r, f, m, e.operand, depth + 1)
         return None if v is None else (-v if isinstance(e.op, ast.USub) else v)
+    if isinstance(e, ast.BinOp) and isinstance(e.op, (ast.Add, ast.Sub, ast.Mult, ast.Div)):
+        a, b = _numeric(r, f, m, e.left, depth + 1), _numeric(r, f, m, e.right, depth + 1)
+        if a is None or b is None:
+            return None
+        try:
+            return {ast.Add: a + b, ast.Sub: a - b, ast.Mult: a * b}[type(e.op)] if not isinstance(e.op, ast.Div) else a / b
+        except (ZeroDivisionError, KeyError):
+            return None
     if isinstance(e, (ast.Name, ast.Attribute)):
         b = r.resolve_static(f, m, e)
         b = r.p.deref_var(b) if b is not None else None
         if b is not None and b.kind == "var" and b.target[2] is not None:
-            return _numeric(r, None, r.p.modules.get(b.target[0], m), b.target[2])
+            return _numeric(r, None, r.p.modules.get(b.target[0], m), b.target[2], depth + 1)
     return None
+
+
+def _table_values(r: Resolver, f: Optional[FuncInfo], m, e: ast.AST) -> Optional[List[ast.AST]]:
+    """value expressions a look-up `TABLE[k]` / `TABLE.get(k, default)` can produce, for a module-level dict literal TABLE"""
+    tab, extra = None, []
+    if isinstance(e, ast.Subscript):
+        tab = e.value
+    elif isinstance(e, ast.Call) and isinstance(e.func, ast.Attribute) and e.func.attr == "get" and e.args:
+        tab = e.func.value
+        extra = list(e.args[1:2])
+    if tab is None or not isinstance(tab, (ast.Name, ast.Attribute)):
+        return None
+    b = r.resolve_static(f, m, tab)
+    b = r.p.deref_var(b) if b is not None else None
+    if b is None or b.kind != "var" or not isinstance(b.target[2], ast.Dict):
+        return None
+    return list(b.target[2].values) + extra
+
+
+def _possible_offsets(r: Resolver, f: Optional[FuncInfo], m, e: ast.AST, depth: int = 0) -> List[float]:
+    """numeric values the operand `e` can take, when they can be read off the code: a constant, or a local filled from a module-level table
+    (directly, or as one position of a tuple entry: `scale, offset = TABLE.get(unit, (1.0, 0.0))`)"""
+    v = _numeric(r, f, m, e)
+    if v is not None:
+        return [v]
+    if depth > 3 or f is None or not isinstance(e, ast.Name) or isinstance(f.node, ast.Lambda):
+        return []
+    out: List[float] = []
+    for st in body_nodes(f):
+        if not isinstance(st, ast.Assign):
+            continue
+        for t in st.targets:
+            if isinstance(t, ast.Name) and t.id == e.id:
+                vals = _table_values(r, f, m, st.value)
+                for ve in (vals if vals is not None else [st.value]):
+                    out += _possible_offsets(r, f, m, ve, depth + 1) if not isinstance(ve, ast.Name) or ve.id != e.id else []
+            elif isinstance(t, (ast.Tuple, ast.List)):
+                for i, te in enumerate(t.elts):
+                    if isinstance(te, ast.Name) and te.id == e.id:
+                        vals = _table_values(r, f, m, st.value)
+                        cands = vals if vals is not None else [st.value]
+                        for ve in cands:
+                            if isinstance(ve, (ast.Tuple, ast.List)) and i < len(ve.elts):
+                                nv = _numeric(r, f, m, ve.elts[i])
+                                if nv is not None:
+                                    out.append(nv)
+    return out
 
 
 def _cone(r: Resolver, f: FuncInfo) -> List[Tuple[Optional[FuncInfo], object, ast.AST]]:
@@ -130,9 +188,10 @@ def check_offset_free(ctx: CheckContext, p: Program, r: Resolver, rule: str = "O
             for nd in ast.walk(root):
                 if isinstance(nd, ast.BinOp) and isinstance(nd.op, (ast.Add, ast.Sub)):
                     for const, other in ((nd.right, nd.left), (nd.left, nd.right)):
-                        v = _numeric(r, fn, mod, const)
-                        if v is None or abs(v) < 1.0:
+                        vs = [x for x in _possible_offsets(r, fn, mod, const) if abs(x) >= 1.0]
+                        if not vs:
                             continue
+                        v = vs[0]
                         if _numeric(r, fn, mod, other) is not None:
                             continue                     # constant folding, not a conversion of a value
                         if not any(isinstance(x, (ast.Name, ast.Attribute, ast.Subscript)) for x in ast.walk(other)):
